@@ -362,7 +362,7 @@ def shapes(tier):
         kw['tag'] = tag; S.append(kw)
     gens3 = [dict(ltab=1), dict(ltab=3, enthalpy=True, seq=True), dict(ltab=5, type='DELV', hg=True)]
     add('t2-whole', sections=ALL_T2, nrock=2, nad=[2, 0], nblocks=3, nincons=5, ntimes=9, nselec_lines=2, nselec=12,
-        generators=gens3, meshmaker='xyz', print_block='block0', nincon_vars=3)
+        generators=gens3, meshmaker='xyz', print_block='block2', nincon_vars=3)   # block2 = 'AB1 7', held as 'AB107'
     add('aut-whole', autough2=True, sections=ALL_AUT, nrock=2, nad=[1, 2], nblocks=3, nincons=2, ntimes=8, generators=gens3, nincon_vars=4)
     add('t2-param-timesteps9', sections=['PARAM'], ntimesteps=9, nincons=4)
     add('t2-meshfile', sections=['ROCKS', 'PARAM', 'ELEME', 'CONNE', 'GENER', 'INCON'], nblocks=3, meshfile=True, generators=[dict(ltab=4, enthalpy=False)])
